@@ -19,23 +19,25 @@ void harness(void)
   pipe_type *parent = &par;
   handle_type *child = &chi;
   REPROC_STREAM stream = (REPROC_STREAM) nondet_int();
-  reproc_redirect redirect;
-  redirect.type = (REPROC_REDIRECT) nondet_int();
-  redirect.handle = nondet_int();
-  redirect.file = nondet_bool() ? VERIF_USER_FILE : NULL;
-  redirect.path = nondet_bool() ? path0 : NULL;
+  reproc_redirect rd;
+  rd.type = (REPROC_REDIRECT) nondet_int();
+  rd.handle = nondet_int();
+  rd.file = nondet_bool() ? VERIF_USER_FILE : NULL;
+  rd.path = nondet_bool() ? path0 : NULL;
+  reproc_redirect *redirect = &rd;
+  unsigned type0 = RD_T(rd);
   bool nonblocking = nondet_bool();
   handle_type out = nondet_int();
   __CPROVER_assume(STREAM_OK(stream));
-  __CPROVER_assume(IMPLIES(RD_T(redirect) == RT_PATH, redirect.path != NULL));
-  __CPROVER_assume(IMPLIES(RD_T(redirect) == RT_FILE, redirect.file != NULL));
+  __CPROVER_assume(IMPLIES(type0 == RT_PATH, rd.path != NULL));
+  __CPROVER_assume(IMPLIES(type0 == RT_FILE, rd.file != NULL));
 #include "gen/pre_redirect_init.inc"
   int verif_rv = redirect_init(parent, child, stream, redirect, nonblocking, out);
 #include "gen/post_redirect_init.inc"
-  if (verif_rv == 0 && RD_T(redirect) == RT_PIPE) V_CANARY("redirect.pipe_reachable");
-  if (verif_rv == 0 && RD_T(redirect) == RT_PARENT && gc.cfg_std_fileno[stream] < 0) V_CANARY("redirect.parent_fallback_reachable");
-  if (verif_rv == 0 && RD_T(redirect) == RT_PATH) V_CANARY("redirect.path_reachable");
-  if (verif_rv == 0 && RD_T(redirect) == RT_FILE) V_CANARY("redirect.file_reachable");
+  if (verif_rv == 0 && type0 == RT_PIPE) V_CANARY("redirect.pipe_reachable");
+  if (verif_rv == 0 && type0 == RT_PARENT && gc.cfg_std_fileno[stream] < 0) V_CANARY("redirect.parent_fallback_reachable");
+  if (verif_rv == 0 && type0 == RT_PATH) V_CANARY("redirect.path_reachable");
+  if (verif_rv == 0 && type0 == RT_FILE) V_CANARY("redirect.file_reachable");
   if (verif_rv < 0) V_CANARY("redirect.failure_reachable");
 #elif defined(RD_destroy)
   handle_type child = nondet_int();
